@@ -6,6 +6,7 @@
 package storage
 
 import (
+	"fmt"
 	"os"
 	"path"
 	"sync"
@@ -144,6 +145,29 @@ func (s *Store) Update(bi BundleItem) error {
 	}).Debug("Store updates BundleItem")
 
 	return s.bh.Update(bi.Id, bi)
+}
+
+// ReplaceBundle overwrites the stored serialization of an already known Bundle, e.g., after one of its blocks was
+// removed. For a fragment, only this fragment's part is replaced. The BundleItem's meta data is left untouched.
+func (s *Store) ReplaceBundle(b bpv7.Bundle) error {
+	bid := b.ID()
+
+	bi, err := s.QueryId(bid)
+	if err != nil {
+		return err
+	}
+
+	for _, part := range bi.Parts {
+		if part.FragmentOffset == bid.FragmentOffset && part.TotalDataLength == bid.TotalDataLength {
+			log.WithFields(log.Fields{
+				"bundle": bid.String(),
+			}).Debug("Store replaces a Bundle's serialization")
+
+			return part.replaceBundle(b)
+		}
+	}
+
+	return fmt.Errorf("store has no part for bundle %v", bid)
 }
 
 // Delete a BundleItem, represented by the "scrubbed" BundleID.
